@@ -354,7 +354,8 @@ httpProcessInput(rfbScreenInfoPtr rfbScreen)
     if(rfbScreen->httpEnableProxyConnect) {
 	const static char* PROXY_OK_STR = "HTTP/1.0 200 OK\r\nContent-Type: octet-stream\r\nPragma: no-cache\r\n\r\n";
 	if(!strncmp(buf, "CONNECT ", 8)) {
-	    if(atoi(strchr(buf, ':')+1)!=rfbScreen->port) {
+	    const char *colon = strchr(buf, ':');
+	    if(!colon || atoi(colon+1)!=rfbScreen->port) {
 		rfbErr("httpd: CONNECT format invalid.\n");
 		rfbWriteExact(&cl,INVALID_REQUEST_STR, strlen(INVALID_REQUEST_STR));
 		httpCloseSock(rfbScreen);
@@ -367,7 +368,8 @@ httpProcessInput(rfbScreenInfoPtr rfbScreen)
 	    rfbScreen->httpSock = RFB_INVALID_SOCKET;
 	    return;
 	}
-	if (!strncmp(buf, "GET ",4) && !strncmp(strchr(buf,'/'),"/proxied.connection HTTP/1.", 27)) {
+	const char *slash = strchr(buf, '/');
+	if (!strncmp(buf, "GET ",4) && slash && !strncmp(slash,"/proxied.connection HTTP/1.", 27)) {
 	    /* proxy connection */
 	    rfbLog("httpd: client asked for /proxied.connection\n");
 	    rfbWriteExact(&cl,PROXY_OK_STR,strlen(PROXY_OK_STR));
